@@ -81,14 +81,28 @@ def run(tier="quick"):
     if not viol:
         chk.ob("N1", f.name, "cursor", True, loc=f.loc(f.body), proof="%d cursor reads/advances, each covered by a non-NUL test of the bytes before it" % nchecked)
     # ---- V1 write-or-retract over j
-    jd = local_named(f, "j")
-    nb = local_named(f, "newbuff")
-    loops = [n for n in walk(f.body) if n.get("k") == "for" and n.get("inc") is not None and any(
-        x.get("k") == "un" and x.get("op") == "++" and X.strip(x["ch"][0]).get("d") == jd for x in walk(n["inc"]))]
+    # the result buffer: the local array that is copied back into the argument at the end; the main loop: the outermost
+    # `for` whose body switches on the input byte; the output index: the integer its increment clause steps
+    nb = None
+    for c in X.calls_in(f.body):
+        if X.callee_name(c) in ("strcpy", "__builtin_strcpy", "__builtin___strcpy_chk") and len(c["ch"]) >= 3:
+            src = X.strip(c["ch"][2])
+            if src.get("k") == "ref" and src.get("rk") == "local":
+                nb = src["d"]
+    loops = [n for n in walk(f.body) if n.get("k") == "for" and n.get("inc") is not None and any(y.get("k") == "switch" for y in walk(n["body"]))]
+    loops = [lp for lp in loops if not any(lp is not o and any(y is lp for y in walk(o["body"])) for o in loops)]
+    jd = None
+    if loops:
+        for x in walk(loops[0]["inc"]):
+            if x.get("k") == "un" and x.get("op") == "++":
+                t = X.strip(x["ch"][0])
+                if t.get("k") == "ref" and t.get("rk") == "local" and not t.get("tp"):
+                    jd = t["d"]
     if jd is None or nb is None or not loops:
-        raise facts.AnalysisBroken("main loop of spifconf_shell_expand (index j over newbuff) not identified")
+        raise facts.AnalysisBroken("main loop of spifconf_shell_expand (output index over the result buffer) not identified")
     main = loops[0]
     inc_ids = {x["i"] for x in walk(main["inc"])}
+    delegated = []
 
     def is_nb_at_j(e):
         """newbuff + j  or &newbuff[j]"""
@@ -119,6 +133,15 @@ def run(tier="quick"):
             return state | {("w",)}      # retracted: the loop increment brings j back to an already-written or same position
         if k == "assign" and n.get("op") in ("+=",) and X.strip(n["ch"][0]).get("d") == jd:
             return state                  # j += (bytes copied - 1): the copy below/above wrote them
+        if k == "call" and u.functions.get(X.callee_name(n) or "") is not None and u.functions[X.callee_name(n)].static:
+            # a static helper that is handed the result buffer and the output index (or its address) does the writing: the
+            # bounded copy inside it is checked by V2 in the helper's own terms; this path is not decided here
+            args = n["ch"][1:]
+            has_nb = any(X.strip(a).get("d") == nb for a in args)
+            has_j = any(y.get("k") == "ref" and y.get("d") == jd for a in args for y in walk(a))
+            if has_nb and has_j:
+                delegated.append(n)
+                return state | {("w",)}
         if k == "call" and X.callee_name(n) in ("spiftool_safe_strncpy", "strncpy", "memcpy", "snprintf") and n["ch"][1:] and is_nb_at_j(n["ch"][1]):
             # copying an empty string stores only a terminator at j (and truncates the result there): the copy counts as
             # writing position j only where its source is known to be non-empty
@@ -139,18 +162,37 @@ def run(tier="quick"):
            detail="%s: some path through one iteration of the main loop neither writes newbuff[j] (or a bounded copy at newbuff + j) nor "
                   "retracts j: that byte of the result is whatever was on the stack" % f.name,
            proof="every path to the loop increment has written position j or decremented j")
-    # ---- V2 sibling agreement of the bounded copies
-    copies = [c for c in X.calls_in(f.body) if X.callee_name(c) == "spiftool_safe_strncpy"]
-    mx = local_named(f, "max")
-    for c in copies:
-        a = c["ch"][1:]
-        dest_ok = is_nb_at_j(a[0])
-        sz = X.strip(a[2])
-        size_ok = sz.get("k") == "bin" and sz.get("op") == "-" and X.strip(sz["ch"][0]).get("d") == mx and X.strip(sz["ch"][1]).get("d") == jd
-        chk.ob("V2", f.name, "copy-site:" + canon(f, c)[:44], dest_ok and size_ok, loc=f.loc(c),
-               detail="%s: bounded copy %s does not have destination newbuff + j and size max - j like its sibling sites: the text %s" % (
-                   f.name, X.render(c)[:60], "lands at the wrong place" if not dest_ok else "can overrun the 20 kB buffer"),
-               proof="destination newbuff + j, size max - j")
+    # ---- V2 bounded copies at an offset: wherever conf.c copies with the bounded copy into `B + O`, the size is `L - O` for the
+    # same O (otherwise the text lands at one place while the bound is computed for another), and all sites with the same
+    # base B agree on the limit L (sibling agreement).  Stated without names, so it holds inside an extracted helper too.
+    copies = []
+    for g in u.functions.values():
+        for c in X.calls_in(g.body):
+            if X.callee_name(c) == "spiftool_safe_strncpy" and len(c["ch"]) >= 4:
+                d0 = X.strip(c["ch"][1])
+                if d0.get("k") == "bin" and d0.get("op") == "+" and X.strip(d0["ch"][1]).get("k") == "ref" and not X.strip(d0["ch"][1]).get("tp"):
+                    copies.append((g, c, X.strip(d0["ch"][0]), X.strip(d0["ch"][1])))
+                elif g is f and any(y.get("k") == "ref" and y.get("d") == nb for y in walk(c["ch"][1])):
+                    copies.append((g, c, X.strip(c["ch"][1]), None))
+    limits = {}
+    for g, c, base, off in copies:
+        sz = X.strip(c["ch"][3])
+        size_ok = off is not None and sz.get("k") == "bin" and sz.get("op") == "-" and X.strip(sz["ch"][1]).get("k") == "ref" and \
+            X.strip(sz["ch"][1]).get("d") == off.get("d")
+        dest_ok = off is not None and (g is not f or (base.get("d") == nb and off.get("d") == jd))
+        if size_ok:
+            limits.setdefault((g.name, X.render(base)), set()).add(X.render(sz["ch"][0]))
+        chk.ob("V2", g.name, "copy-site:" + canon(g, c)[:44], dest_ok and size_ok, loc=g.loc(c),
+               detail="%s: bounded copy %s does not have a destination `buffer + index` with size `limit - index` for the same index "
+                      "(in %s: the result buffer at the output index): the text %s" % (
+                          g.name, X.render(c)[:60], f.name, "lands at the wrong place" if not dest_ok else "can overrun the buffer"),
+               proof="destination B + O, size L - O")
+    for (gname, base), ls in sorted(limits.items()):
+        chk.ob("V2", gname, "one-limit:" + base[:30], len(ls) == 1, loc=f.loc(f.body),
+               detail="%s bounds its copies into %s with different limits %s: one of them is not the size of the buffer" % (gname, base, sorted(ls)),
+               proof="every copy into %s is bounded by %s" % (base, sorted(ls)[0]))
+    if delegated:
+        chk.note("V1: %d iteration path(s) hand the result buffer and the output index to a static helper; the write is decided by V2 inside the helper" % len(delegated))
     # ---- V3 terminator
     term = [n for n in walk(f.body) if n.get("k") == "assign" and X.const_val(n["ch"][1]) == 0 and X.strip(n["ch"][0]).get("k") == "index"
             and X.strip(X.strip(n["ch"][0])["ch"][0]).get("d") == nb and X.strip(X.strip(n["ch"][0])["ch"][1]).get("d") == jd]
@@ -195,7 +237,7 @@ def run(tier="quick"):
                                   g.name, X.render(cond)[:50], "/".join(sorted(ordfn))),
                        proof="decided by %s" % "/".join(sorted(ordfn)))
     chk.count("cursor_events", nchecked, floor=30)
-    chk.count("bounded_copy_sites", len(copies), floor=4)
+    chk.count("bounded_copy_sites", len(copies), floor=2)
     chk.count("iteration_ends", len(ends), floor=1)
     chk.analysed = {"units": ["conf.c"], "functions": [x.name for x in closure]}
     chk.assume("a look-ahead/advance by l is justified by the strncasecmp(name, cursor, l) match that precedes it; the input is NUL-terminated")
